@@ -786,7 +786,7 @@ impl<F: Float, A: Data<Elem = F>> CostFunction for LogisticRegressionProblem1<'_
     fn cost(&self, p: &Self::Param) -> std::result::Result<Self::Output, argmin::core::Error> {
         let w = p.as_array();
         let cost = logistic_loss(self.x, &self.target, self.alpha, w);
-        Ok(cost)
+        check_finite_cost(cost)
     }
 }
 
@@ -810,7 +810,7 @@ impl<F: Float, A: Data<Elem = F>> CostFunction for LogisticRegressionProblem2<'_
     fn cost(&self, p: &Self::Param) -> std::result::Result<Self::Output, argmin::core::Error> {
         let w = p.as_array();
         let cost = multi_logistic_loss(self.x, &self.target, self.alpha, w);
-        Ok(cost)
+        check_finite_cost(cost)
     }
 }
 
@@ -823,6 +823,18 @@ impl<F: Float, A: Data<Elem = F>> Gradient for LogisticRegressionProblem2<'_, F,
         let w = p.as_array();
         let grad = ArgminParam(multi_logistic_grad(self.x, &self.target, self.alpha, w));
         Ok(grad)
+    }
+}
+
+/// The line search never terminates once the cost (or the parameter vector it was evaluated at)
+/// stops being finite, so a non-finite cost is reported as an error instead.
+fn check_finite_cost<F: Float>(cost: F) -> std::result::Result<F, argmin::core::Error> {
+    if cost.is_finite() {
+        Ok(cost)
+    } else {
+        Err(argmin::core::Error::msg(
+            "cost function is not finite, the solver cannot make further progress",
+        ))
     }
 }
 
